@@ -21,7 +21,7 @@ def run(c):
     c.rule = ("a case draws 2-6 contributions (simple values/counters, streams of AddValueCounterHost events, arbitrary ItemValue leaves, "
               "each with a small unique sketch sharing values) and evaluates 4 merge programs on the real code (given order, permutations, "
               "random binary trees) through MultiValue.Merge (stream `values`: quick 400, thorough 8000); stream `ts` does the same for API "
-              "rows with tsValues.merge (100 / 2000); stream `sketch` (6 / 80 cases) builds 2-3 sketches of 1..280000 values (sizes around 2^16 included) and merges them with ChUnique.Merge and "
+              "rows with tsValues.merge (100 / 2000); stream `sketch` (4 / 80 cases) builds 2-3 sketches of 1..280000 values (sizes around 2^16 included) and merges them with ChUnique.Merge and "
               "MergeRead in several orders. A third of the leaves also take a MultiValue.ApplyUnique event. After every sketch op the real table is compared slot by slot with the table model "
               "and every stored value is looked up with the real insertImpl probe (oracle unique-item-unreachable / unique-count-mismatch). Non-trivial = a merge consumed a random draw / two leaves tie for the minimum / API rows / "
               "sketch operands with different skipDegree; distinct by op-sequence hash")
@@ -37,7 +37,7 @@ def run(c):
     drv = c.driver(DRIVER)
     if binary and drv:
         # three streams (the label is the harness -mode, so that `bin/check C04 --replay f` regenerates the same case)
-        for mode, n in (("values", c.n(400, 8000)), ("ts", c.n(100, 2000)), ("sketch", c.n(6, 80))):
+        for mode, n in (("values", c.n(400, 8000)), ("ts", c.n(100, 2000)), ("sketch", c.n(4, 80))):
             rc, out = c.go_run(binary, [f"-n={n}", f"-mode={mode}"], timeout=3000)
             c.harness_ok(rc, out, f"verif-c04 -mode={mode}")
             c.correspond(out, drv, label=mode, timeout=3000)
